@@ -5,6 +5,7 @@ package main
 // All of them are `func() *P0` constructors bound to a registration through a slot table.
 
 import (
+	"context"
 	"reflect"
 
 	godi "github.com/junioryono/godi/v4"
@@ -109,6 +110,25 @@ type (
 		*P2
 		R1 *P3
 	}
+	// the built-in injectables as embedded fields
+	embIn3 struct {
+		godi.In
+		context.Context
+	}
+	embIn4 struct {
+		godi.In
+		godi.Scope
+		F1 *P0
+	}
+	embIn5 struct {
+		godi.In
+		godi.Provider
+	}
+	embIn6 struct {
+		godi.In
+		F0 godi.Scope
+		context.Context
+	}
 )
 
 // embInType returns the static parameter-object type for a parameter list with an embedded field, nil if none fits.
@@ -126,6 +146,14 @@ func embInType(ps []Param) reflect.Type {
 		return reflect.TypeOf(embIn1{})
 	case len(ps) == 2 && plain(ps[0], 1, true) && emb(ps[1], 0):
 		return reflect.TypeOf(embIn2{})
+	case len(ps) == 1 && emb(ps[0], tCtx):
+		return reflect.TypeOf(embIn3{})
+	case len(ps) == 2 && emb(ps[0], tScope) && plain(ps[1], 0, false):
+		return reflect.TypeOf(embIn4{})
+	case len(ps) == 1 && emb(ps[0], tProv):
+		return reflect.TypeOf(embIn5{})
+	case len(ps) == 2 && plain(ps[0], tScope, false) && emb(ps[1], tCtx):
+		return reflect.TypeOf(embIn6{})
 	}
 	return nil
 }
